@@ -13,10 +13,9 @@ weight is its true weight; the parity label used by the look-up is the GF(2) pro
 vector); the FVS and isometric collections are sub-collections of Horton's; and the TRANSFER of
 sufficiency: if a collection contains some minimum cycle basis, the phases that look their cycle up in it
 produce a minimum cycle basis (`Lemmas/DePina2.runIn_weight`).
-NOT proved (`c14_sufficient_partial`): that each collection does contain a minimum cycle basis (Horton's
-theorem with consistent paths, its FVS restriction, the isometric-class theorem of Amaldi et al.).  It is
-validated per run: greedy selection by weight subject to GF(2) independence over the dumped collection
-reaches the dimension and the independent optimum.
+Sufficiency itself (each collection does contain a minimum cycle basis) is in `Props/C14b.lean`: proved for the
+Horton and FVS collections, `c14_sufficient_iso_partial` for the isometric one (validated per run: greedy selection
+by weight subject to GF(2) independence over the dumped collection reaches the dimension and the independent optimum).
 -/
 namespace Parmcb.C14
 open Parmcb
